@@ -372,9 +372,11 @@ def extract_function(proj, fi, functable, real='double', srcrel=None, select=Non
         proto = 'static inline ' + proto
     parts = [proto]
     ex.loops_spliced = 0
+    ex.loop_lines = []
     if contract is not None:
         parts.append(contract.emit_clauses(exclude_clauses))
         b, ex.loops_spliced = splice_loops(b, contract)
+        ex.loop_lines = [line_body + o for o in getattr(contract, 'loop_line_offsets', [])]
         b = splice_captures(b, contract, report)
     parts.append('#line %d "%s"' % (line_body, os.path.join(proj.repo, srcrel)))
     parts.append(b)
@@ -423,6 +425,7 @@ def splice_loops(body, contract):
         else:
             pos.append((m.group(1), pc))
     n_spliced = 0
+    contract.loop_line_offsets = [body.count('\n', 0, pos[n - 1][1]) for n in sorted(contract.loops) if n <= len(pos)]
     for n in sorted(contract.loops, reverse=True):
         if n > len(pos):
             raise ExtractError('%s: loop contract for loop %d but the body has %d loops' % (contract.path, n, len(pos)))
